@@ -173,10 +173,16 @@ def _cons_shard(spec, emit):
                     # within this (generous) budget, the warm start must reach it too
                     o3 = case2.solve(None, None, **{b_it: 60, **({b_ep: 2000} if b_ep == "max_epochs" else ({b_ep: 100} if b_ep else {}))})
                     counts["cold_start_comparisons"] = counts.get("cold_start_comparisons", 0) + 1
+                    gapF = None
                     if o3["exc"] is None and o3["stop"] <= case2.tol():
+                        gapF = case2.ref.objective(o2["w"]) - case2.ref.objective(o3["w"])
+                    # slow convergence on a flat objective (near-separable logistic data, huge coefficients) is not a
+                    # stall: only a warm run that ends materially worse than the cold one is judged
+                    if gapF is not None and gapF > 1e-3 * (1 + abs(case2.ref.objective(o3["w"]))):
                         viols.append(dict(mechanism="warm-start-fails-where-cold-start-converges", solver=solver, datafit=df,
                                           penalty=pen, storage=case.storage, fit_intercept=case.fit_intercept,
                                           strategy=case.strategy, step=step, warm_stop=f.get("stop"), cold_stop=o3["stop"],
+                                          objective_gap=float(gapF),
                                           detail="chain step %d: warm start stops at %.3g > tol=%g after the budget in which a "
                                                  "cold start reaches %.3g" % (step, f.get("stop"), case2.tol(), o3["stop"])))
                 if O.cert_violated(f, case2.tol()):
@@ -335,11 +341,14 @@ def _path_shard(spec, emit):
         elif not np.array_equal(ret_alphas, alphas):
             viols.append(dict(mechanism="returned-grid-differs-from-requested", estimator=est_name,
                               detail="%s vs %s" % (ret_alphas, alphas)))
+        broke = False
         for t in range(len(ret_alphas)):
             a = float(ret_alphas[t])
             if est_name == "SqrtLasso":
                 coef = coefs[t]
                 sc = None
+                if norm(y - X @ coef) < 1e-2 * norm(y):
+                    broke = True      # documented: the sweep stops here with a ConvergenceWarning
             elif multi:
                 coef = coefs[:, :, t].T          # (n_features + icpt, n_tasks)
                 sc = stop_crits[t]
@@ -364,6 +373,7 @@ def _path_shard(spec, emit):
                 slack = 1e-10 * (1 + float(np.max(np.abs(prob.gradient(coef))))) + prob.dot_error_bound(coef)
                 if not R.leq(cert, tol * (1 + 1e-6) + slack, rel=0.0):
                     viols.append(dict(mechanism="path-column-fails-certificate", estimator=est_name, t=t, init=init_kind,
+                                      after_small_residual_break=bool(broke and est_name == "SqrtLasso" and not np.any(coef)),
                                       order=order, fit_intercept=icpt, positive=positive, tol=tol, cert=cert,
                                       ratio=cert / tol, storage="csc" if sparse_in else "dense",
                                       detail="column %d (alpha=%.4g, %s grid, init=%s): stop_crit=%s <= tol=%g but "
